@@ -580,3 +580,10 @@ const fn ilog2i(i: u32) -> u32 {
     let log = 32 - i.leading_zeros() - 1;
     i * log + ((i - (1 << log)) << 1)
 }
+
+#[cfg(feature = "verif")]
+impl PngImage {
+    pub(crate) fn verif_unfilter_image(&self) -> Result<Vec<u8>, PngError> {
+        self.unfilter_image()
+    }
+}
